@@ -350,6 +350,13 @@ fn run_pd<const P0: usize, const P1: usize, const P2: usize>(prop: &str, mut t: 
             let pats = plant(&mut w, &specs, &tables, &mem, nonce, c as u64);
             write_outputs(&g, md, &pats);
             w.sim.seg.lrw_output_area_noise = if w.sim.tape.flag(1, 2, "output_area_noise") { Some(nonce ^ c as u64) } else { None };
+            let mut deaf: Option<usize> = None;
+            if crate::tape::gen() >= 2 && !mem.is_empty() && w.sim.tape.flag(20, 100, "member_deaf_to_state_check") {
+                let i = mem[w.sim.tape.choose(mem.len(), "deaf_member")];
+                w.sim.seg.devices[i].faults.deaf_to_fprd = Some(0x0130);
+                deaf = Some(i);
+                out.probes.insert("cycle_with_unanswered_state_check".into(), 1);
+            }
             w.sim.seg.record = true;
             w.sim.seg.log.clear();
             let res = w.sim.block_on(g.tx_rx_dc(md));
@@ -367,6 +374,9 @@ fn run_pd<const P0: usize, const P1: usize, const P2: usize>(prop: &str, mut t: 
                         out.violations.push(viol("cycle-arithmetic", format!("time {}: offset {:?} wait {:?}", r.extra.dc_system_time, r.extra.cycle_start_offset, r.extra.next_cycle_wait)));
                     }
                 }
+            }
+            if let Some(i) = deaf {
+                w.sim.seg.devices[i].faults.deaf_to_fprd = None;
             }
             if !out.violations.is_empty() {
                 break;
@@ -472,6 +482,14 @@ fn run_pd<const P0: usize, const P1: usize, const P2: usize>(prop: &str, mut t: 
         // Arbitrary device answers: the output area of the returned image need not echo what was sent.
         w.sim.seg.lrw_output_area_noise = if w.sim.tape.flag(1, 2, "output_area_noise") { Some(nonce ^ c as u64) } else { None };
         let before: Vec<Vec<u8>> = w.sim.seg.devices.iter().map(|d| d.mem.clone()).collect();
+        // gen >= 2, C07: in some cycles one member leaves its state check unanswered (nothing else).
+        let mut deaf: Option<usize> = None;
+        if !c08 && crate::tape::gen() >= 2 && !mem.is_empty() && w.sim.tape.flag(20, 100, "member_deaf_to_state_check") {
+            let i = mem[w.sim.tape.choose(mem.len(), "deaf_member")];
+            w.sim.seg.devices[i].faults.deaf_to_fprd = Some(0x0130);
+            deaf = Some(i);
+            out.probes.insert("cycle_with_unanswered_state_check".into(), 1);
+        }
         w.sim.seg.record = true;
         w.sim.seg.log.clear();
         let (res_wkc, res_states, res_time) = if variant == Variant::SyncSystemTime {
@@ -507,6 +525,9 @@ fn run_pd<const P0: usize, const P1: usize, const P2: usize>(prop: &str, mut t: 
         }
         if c08 {
             behavioural(&mut out, &w, &specs, &mem, &pats, &before);
+        }
+        if let Some(i) = deaf {
+            w.sim.seg.devices[i].faults.deaf_to_fprd = None;
         }
         if !out.violations.is_empty() {
             break;
@@ -677,7 +698,8 @@ fn check_cycle<const N: usize, const P: usize, S: ethercrab::subdevice_group::Ha
         out.violations.push(viol("state-list-length", format!("{} states reported for {} SubDevices", states.len(), members_sorted.len())));
     } else {
         for (k, i) in members_sorted.iter().enumerate() {
-            let want = w.sim.seg.devices[*i].al_state;
+            // A member that left its state check unanswered is listed as "no state" (0), in place.
+            let want = if w.sim.seg.devices[*i].faults.deaf_to_fprd == Some(0x0130) { 0 } else { w.sim.seg.devices[*i].al_state };
             let got: u8 = states[k].into();
             if got != want {
                 out.violations.push(viol("state-list-wrong", format!("state list entry {} (device {}) is {:?}, the device reported {}", k, i, states[k], want)));
